@@ -103,3 +103,35 @@ check(
     "Hypothesis patterns/cache histories + exhaustive short patterns vs. reference glob evaluator; relaxed/strict/get metamorphic relations",
     "DESIGN.md section 4 C08",
 )
+check(
+    "C10",
+    "exploration",
+    "Generated trees of AnyNode/Node/a user NodeMixin class with arbitrary attribute dictionaries (non-identifier and underscore keys; None, numbers, text, bytes, tuples, sets, nested containers, opaque objects) and every attriter/childiter/dictcls/maxlevel choice at every level: export equals an independent serialisation (key order, mapping type, 'children' only when non-empty), import_(export(t)) is isomorphic with equal attributes, export(import_(d)) equals d up to empty 'children' lists for generated nested dictionaries, and neither call modifies its argument. The option product is enumerated on all shapes <= 4/6 nodes.",
+    "Trusts the reference serialiser in vf/props/c10.py; attribute keys avoid 'parent', 'children' and constructor parameter names; immutability judged on public state.",
+    "Hypothesis attributed trees and nested dictionaries + enumerated option product vs. reference serialiser and two round trips",
+    "DESIGN.md section 4 C10",
+)
+check(
+    "C11",
+    "exploration",
+    "Generated trees with JSON-representable values (huge ints, finite floats, non-ASCII/control/astral text, nested lists and dicts) under every combination of indent/sort_keys/ensure_ascii/separators/maxlevel, with and without a custom DictExporter (own attriter/childiter/maxlevel) and custom DictImporter/object_pairs_hook: export() must equal json.dumps(reference dict, **options) textually, write() must emit the same text, import_() and read() must rebuild an isomorphic tree with type-strictly equal values.",
+    "Trusts json.dumps of the standard library and the C10 reference serialiser; NaN/Infinity, tuples and non-string keys are outside the property.",
+    "Hypothesis JSON-valued trees x option bundles vs. json.dumps(reference) and import round trip",
+    "DESIGN.md section 4 C11",
+)
+check(
+    "C12",
+    "exploration",
+    "The complete product start x stop subset x filtered-out subset x maxlevel (None, 0..height+2) on every shape <= 5 (quick) / <= 6 (thorough) nodes for DotExporter, UniqueDotExporter and RenderTreeGraph with quote/backslash/newline/non-ASCII names, plus Hypothesis trees with colliding names, custom name/attribute/edge functions, options, indent, graph/name and to_dotfile: header, option lines, node statements in reference pre-order with recoverable escaped identifiers, edge statements as a multiset equal to the declared parent-child pairs, closing brace, identifier stability on re-iteration.",
+    "Defect D7 repaired (fix: 3fd3770). KF-C12-1 (edge to a directly stopped child, pinned by the repository's reference files) is recognised only by its signature: declared parent, depth in range, stop(c) and filter_(c) true; any other undeclared edge end is a violation.",
+    "bounded-exhaustive option product + Hypothesis names/functions vs. parse-back of emitted lines against the declared sub-forest",
+    "DESIGN.md section 4 C12",
+)
+check(
+    "C13",
+    "exploration",
+    "Same product and generators as C12 for MermaidExporter: header, option lines, node lines indent+id+nodefunc in reference pre-order, default label escaping, distinct and stable identifiers, edge lines as a multiset equal to the declared parent-child pairs, to_file fence.",
+    "Defect D7 repaired (fix: b21f505). Default identifiers are read off the node lines and must match N<digits>.",
+    "bounded-exhaustive option product + Hypothesis names/functions vs. expected lines built from the declared sub-forest",
+    "DESIGN.md section 4 C13",
+)
